@@ -336,3 +336,64 @@ example : ∃ lc, InvX 0 (Saito.C03.istate 6) lc ∧ Deliverable (Saito.C03.ista
   exact ⟨lc, h, by constructor <;> decide +kernel, by decide +kernel⟩
 
 end Saito.C04
+
+namespace Saito.C04
+open Saito.Chain
+
+/-! ### the by-height index across the ring boundary (what the `ring` sub-suite of the chain check compares) -/
+
+/-- a ring of four slots (`gp = 2`) holding the chain 1←2←3←4←5, every block stored and wound; block 4 sits in slot 0 -/
+def ringSt : State :=
+  [(1, 11), (2, 12), (3, 13), (4, 14), (5, 15)].foldl
+    (fun st p =>
+      let slot := slotOf st p.1
+      let st := { st with ring := setItem st.ring slot ((getItem st.ring slot).add p.1 p.2), ringEmpty := false }
+      ringReorg st p.1 p.2 true)
+    { gp := 2 }
+
+/-- unwinding the tip, then the block in slot 0: the tip pointer rolls back from slot 1 to slot 0 and from slot 0 to the LAST
+    slot, so the index reports 4 and then 3 as the tip (and the longest-chain entries below stay) -/
+theorem ring_rollback_wraps :
+    latest ringSt = some (5, 15) ∧
+    latest (ringReorg ringSt 5 15 false) = some (4, 14) ∧
+    latest (ringReorg (ringReorg ringSt 5 15 false) 4 14 false) = some (3, 13) ∧
+    lcHashAt (ringReorg (ringReorg ringSt 5 15 false) 4 14 false) 3 = some 13 ∧
+    lcHashAt (ringReorg (ringReorg ringSt 5 15 false) 4 14 false) 4 = none := by decide +kernel
+
+/-- winding the two blocks back restores the index exactly -/
+theorem ring_unwind_rewind_id :
+    let u := ringReorg (ringReorg ringSt 5 15 false) 4 14 false
+    let w := ringReorg (ringReorg u 4 14 true) 5 15 true
+    latest w = latest ringSt ∧ (List.range 8).map (lcHashAt w) = (List.range 8).map (lcHashAt ringSt) := by decide +kernel
+
+
+/-- the slot below `p` in a ring of `2·gp` slots -/
+def prevSlot (gp p : Nat) : Nat := if p > 0 then p - 1 else 2 * gp - 1
+
+/-- **roll-back of the tip pointer, every height and ring size**: when the tip (in slot `id % 2gp`) is unwound and the slot
+    below it — the LAST slot when the tip sits in slot 0 — holds the block `id - 1` on the longest chain, the index reports
+    that block as the new tip. -/
+theorem ring_rollback (st : State) (id hash h' q : Nat) (hgp : 1 ≤ st.gp)
+    (htip : st.ringLc = some (slotOf st id))
+    (hlc : (getItem st.ring (prevSlot st.gp (slotOf st id))).lc = some q)
+    (hent : (getItem st.ring (prevSlot st.gp (slotOf st id))).ents[q]? = some (h', id - 1)) (hid : 1 ≤ id) :
+    latest (ringReorg st id hash false) = some (id - 1, h') := by
+  have hne : prevSlot st.gp (slotOf st id) ≠ slotOf st id := by
+    unfold prevSlot slotOf; split <;> omega
+  have hget : getItem (setItem st.ring (slotOf st id) ((getItem st.ring (slotOf st id)).reorg hash false))
+      (prevSlot st.gp (slotOf st id)) = getItem st.ring (prevSlot st.gp (slotOf st id)) := by
+    rw [getItem_setItem, if_neg hne]
+  unfold ringReorg
+  simp only [Bool.false_eq_true, if_false, htip, beq_self_eq_true, if_true]
+  have hp : (if slotOf st id > 0 then slotOf st id - 1 else 2 * st.gp - 1) = prevSlot st.gp (slotOf st id) := rfl
+  rw [hp, hget, hlc]
+  simp only [hent]
+  have : (id - 1 + 1 == id) = true := by simp; omega
+  simp only [this, if_true, latest, hget, hlc, hent]
+
+/-- the hypotheses of `ring_rollback` are met by a block in slot 0 (the wrap-around case): block 4 of `ringSt` after block 5 was unwound -/
+example : let st := ringReorg ringSt 5 15 false
+    st.ringLc = some (slotOf st 4) ∧ slotOf st 4 = 0 ∧ prevSlot st.gp (slotOf st 4) = 3 ∧
+    (getItem st.ring 3).lc = some 0 ∧ (getItem st.ring 3).ents[0]? = some (13, 3) := by decide +kernel
+
+end Saito.C04
